@@ -249,6 +249,32 @@ pub fn check_query(b: &Built, q: &Q, extra_collectors: bool) -> Option<(String, 
         if top_ids != got {
             return Ok(Some(("topdocs_differs".into(), format!("TopDocs ids {top_ids:?}, DocSetCollector {got:?}"))));
         }
+        // a bounded TopDocs (pruning scorers: block-max WAND over unions and intersections) returns the
+        // head of the full ranking: same length, documents of the matching set, the same scores position
+        // by position (ties may be broken either way, so ids are only compared as members)
+        for k in [1usize, 3] {
+            if got.len() <= k {
+                continue;
+            }
+            let topk = b.searcher.search(&tq, &TopDocs::with_limit(k).order_by_score()).map_err(|e| format!("{e:?}"))?;
+            if std::env::var("VERIF_DEBUG").is_ok() {
+                eprintln!("k={k} topk={:?} full={:?}", topk, &top[..k.min(top.len())+2]);
+            }
+            if topk.len() != k {
+                return Ok(Some(("topk_differs".into(), format!("TopDocs({k}) returned {} hits of {} matches", topk.len(), got.len()))));
+            }
+            for (i, (sc, addr)) in topk.iter().enumerate() {
+                let want = top[i].0;
+                if (sc - want).abs() > 1e-5 * want.abs().max(1.0) {
+                    let id = ids_of(&b.searcher, std::iter::once(*addr));
+                    return Ok(Some(("topk_differs".into(), format!("TopDocs({k}) hit #{i} is doc id {id:?} with score {sc}, the full ranking has score {want} at that position"))));
+                }
+            }
+            let ids = ids_of(&b.searcher, topk.iter().map(|x| x.1));
+            if ids.iter().any(|i| !got_set.contains(i)) {
+                return Ok(Some(("topk_differs".into(), format!("TopDocs({k}) ids {ids:?} are not all in the matching set"))));
+            }
+        }
         if extra_collectors {
             let mut mc = MultiCollector::new();
             let hc = mc.add_collector(Count);
@@ -359,6 +385,16 @@ pub fn structured_docs(n: usize) -> Vec<ModelDoc> {
                 toks.push("q".to_string());
                 toks.push("p".to_string());
             }
+            // term-frequency outliers (appended, so that the phrase positions above stay put): a few rare
+            // documents repeat one of their terms, so that the best documents of a conjunction stand out
+            // through one clause only and block-max bounds differ from block to block
+            for (term, present, modulus, rem, times) in [("t7", i % 7 == 0, 11usize, 5usize, 6usize), ("t3", i % 3 == 0, 13, 6, 8), ("h129", i < 129, 16, 9, 10), ("t2", i % 2 == 0, 19, 4, 5)] {
+                if present && i % modulus == rem {
+                    for _ in 0..times {
+                        toks.push(term.to_string());
+                    }
+                }
+            }
             let mut d = ModelDoc::from_text(i as u64, "");
             d.tokens = toks;
             d.fields.insert("num".into(), vec![V::U(i as u64)]);
@@ -412,6 +448,27 @@ pub fn structured_queries(n: usize) -> Vec<Q> {
                         }
                     }
                 }
+            }
+        }
+    }
+    // 4 and 5 clauses: every 4- and 5-subset of eight terms (dense and sparse mixed), in both orders, as a pure
+    // conjunction, with the last clause optional, and with the last clause excluded (intersections with two
+    // and more secondary docsets: dense counting, block-max pruning over suffix bounds)
+    let r6 = ["t1", "t2", "t3", "t7", "t128", "h129", "p", "q"];
+    for mask in 0u32..(1 << r6.len()) {
+        let k = mask.count_ones();
+        if k != 4 && k != 5 {
+            continue;
+        }
+        let sel: Vec<&str> = r6.iter().enumerate().filter(|(i, _)| mask >> i & 1 == 1).map(|(_, s)| *s).collect();
+        for rev in [false, true] {
+            let mut sel = sel.clone();
+            if rev {
+                sel.reverse();
+            }
+            for last in OCCS {
+                let cl: Vec<(Occ, Q)> = sel.iter().enumerate().map(|(i, s)| (if i + 1 == sel.len() { last } else { Occ::Must }, t(s))).collect();
+                qs.push(Q::Bool(cl, None));
             }
         }
     }
